@@ -358,3 +358,24 @@ func prefillFanout(src sim.Source, w *world.World, set *model.Set, cfg world.Cfg
 	}
 	return fmt.Sprintf("<shape prefill: %d routes for GET (siblings and wildcard children under /f/ and/or the deep chain under /~)>", n), n > 0
 }
+
+// entryPointsAgree checks, without any model, that Lookup and Reverse of one reader (the router, a transaction with
+// uncommitted writes, a snapshot) select the same route with the same trailing-slash flag for each probe.
+func entryPointsAgree(rd world.Reader, probes []world.Probe) string {
+	for _, p := range probes {
+		lk := world.ObsLookup(rd, p)
+		rv := world.ObsReverse(rd, p)
+		if lk.Tag != rv.Tag || lk.TSR != rv.TSR {
+			return fmt.Sprintf("%s %s%s: Lookup selects %s, Reverse selects %s", p.Method, p.Host, p.Path, lk, rv)
+		}
+	}
+	return ""
+}
+
+func genProbes(src sim.Source, pool []*model.Pattern, methods []string, n int) []world.Probe {
+	var out []world.Probe
+	for i := 0; i < n; i++ {
+		out = append(out, world.GenProbe(src, pool, methods))
+	}
+	return out
+}
